@@ -107,27 +107,47 @@ def stackedLLR (opa ns : F) (W : List F) (Y : List (List F)) (ds : List (Dataset
   evalWith opa ns (ajk W Y) ds
 
 /-- Operations on one object graph.  The two weight services are *shared*: besides the likelihood
-ratio, the signal generator (or anybody else) recalculates them at its own parameters. -/
+ratio, the signal generator (or anybody else) recalculates them at its own parameters; the sources of
+the existing `SourceHypoGroupManager` can be changed in place and the change propagated with
+`change_shg_mgr` (`Analysis.change_source`, `Analysis.change_shg_mgr`). -/
 inductive SvcOp (P F : Type) where
   | recalc (p : P)           -- `SrcDetSigYieldWeightsService.calculate(p)` + `DatasetSignalWeightFactorsService.calculate()`
   | eval (p : P) (ns : F)    -- `MultiDatasetTCLLHRatio.evaluate`: recalculates both services at `p`, then evaluates
+  | changeSources (W' : List F)   -- new source weights in the shg manager + `change_shg_mgr` on services and LLH ratio
 
-/-- one step: the state is the `a_jk` table currently held by the shared service; `Yof p` are the
-detector signal yields at source parameters `p` -/
-def svcStep {P : Type} (opa : F) (W : List F) (Yof : P → List (List F)) (ds : List (Dataset F))
-    (st : List (List F)) : SvcOp P F → List (List F) × Option F
-  | .recalc p => (ajk W (Yof p), none)
-  | .eval p ns => (ajk W (Yof p), some (evalWith opa ns (ajk W (Yof p)) ds))
+/-- what the object graph remembers: the source weights in the `SourceHypoGroupManager`, the copy of
+them cached by the service (`_src_weight_array_list`), and the last calculated `a_jk` table -/
+structure SvcState (F : Type) where
+  W : List F
+  Wc : List F
+  a : List (List F)
+
+/-- one step; `Yof p` are the detector signal yields at source parameters `p`.  `calculate` multiplies
+the yields with the *cached* weights; `change_shg_mgr` re-creates the cache from the manager. -/
+def svcStep {P : Type} (opa : F) (Yof : P → List (List F)) (ds : List (Dataset F))
+    (st : SvcState F) : SvcOp P F → SvcState F × Option F
+  | .recalc p => ({ st with a := ajk st.Wc (Yof p) }, none)
+  | .eval p ns =>
+      ({ st with a := ajk st.Wc (Yof p) }, some (evalWith opa ns (ajk st.Wc (Yof p)) ds))
+  | .changeSources W' => ({ st with W := W', Wc := W' }, none)
 
 /-- run a history, collecting the values returned by the `eval` operations -/
-def svcRun {P : Type} (opa : F) (W : List F) (Yof : P → List (List F)) (ds : List (Dataset F))
-    (st : List (List F)) : List (SvcOp P F) → List F
+def svcRun {P : Type} (opa : F) (Yof : P → List (List F)) (ds : List (Dataset F))
+    (st : SvcState F) : List (SvcOp P F) → List F
   | [] => []
   | op :: rest =>
-      let r := svcStep opa W Yof ds st op
+      let r := svcStep opa Yof ds st op
       match r.2 with
-      | some v => v :: svcRun opa W Yof ds r.1 rest
-      | none => svcRun opa W Yof ds r.1 rest
+      | some v => v :: svcRun opa Yof ds r.1 rest
+      | none => svcRun opa Yof ds r.1 rest
+
+/-- the specification: no state but the source weights currently in force -/
+def svcSpec {P : Type} (opa : F) (Yof : P → List (List F)) (ds : List (Dataset F))
+    (W : List F) : List (SvcOp P F) → List F
+  | [] => []
+  | .recalc _ :: rest => svcSpec opa Yof ds W rest
+  | .eval p ns :: rest => stackedLLR opa ns W (Yof p) ds :: svcSpec opa Yof ds W rest
+  | .changeSources W' :: rest => svcSpec opa Yof ds W' rest
 
 end
 
